@@ -5,11 +5,14 @@ forwarding `impl Output for &mut Dispatcher` (all three methods), for every inpu
   * C09 "identical to naming the format": with `from == Some(f)` the handle goes straight to f's transcode function and
     detection is not consulted at all; with `from == None` the result is exactly what naming the detected format would give
     for the handle as detection left it, "unable to detect" when detection says None, and detection's own error otherwise;
+  * C14 / C02: `translate_slice` / `translate_reader` (methods and the two free functions, verbatim) mean exactly `tr_spec`
+    on the handle made from THAT slice / reader, with the caller's `from`, on a translator whose target is the caller's `to`
+    (the outcome of a format module is a function of (source format, handle, target variant of the output it is given));
   * C03 / C12: the dispatcher created for target T forwards transcode_from / transcode_value / flush to the output of
     format T and to no other, and never changes its variant (one output for the life of the translator).
 
 Stand-ins with ASSUMED contracts: the four format modules (`Output::new`, `transcode`, whose result is an uninterpreted
-function of (format, handle)), `detect::detect_format` (proved by the Kani unit U-DET), `input::Handle`, `crate::Error`,
+function of (format, handle, target variant of the output)), `detect::detect_format` (proved by the Kani unit U-DET), `input::Handle`, `crate::Error`,
 minimal serde traits.  `Format`, `Dispatcher`, `Translator`, `trait Output` are extracted verbatim.
 """
 
@@ -97,7 +100,7 @@ FORMAT_MOD_TEMPLATE = r'''    pub mod @M@ {
         #[verifier::external_body]
         pub(crate) fn transcode<'i, O>(input: input::Handle<'i>, output: O) -> (r: Result<()>)
         where O: crate::Output,
-            ensures r == tr_outcome(@CODE@, input),
+            ensures r == tr_outcome(@CODE@, input, out_kind(&output)),
         { unimplemented!() }
     }
 '''
@@ -106,7 +109,9 @@ FORMAT_MODS = r'''
 pub open spec fn fcode(f: Format) -> int { match f { Format::Json => 1, Format::Msgpack => 2, Format::Toml => 3, Format::Yaml => 4 } }
 // what translating `h` as format number `code` returns (the format modules are stand-ins; the result is taken to be a
 // function of the format and the handle)
-pub uninterp spec fn tr_outcome<'i>(code: int, h: input::Handle<'i>) -> Result<()>;
+pub uninterp spec fn tr_outcome<'i>(code: int, h: input::Handle<'i>, target: int) -> Result<()>;
+// which target format the output handed to a format module writes (for `&mut Dispatcher`: the variant it holds)
+pub uninterp spec fn out_kind<O>(o: &O) -> int;
 // what detection answers for a handle, and the handle as detection leaves it (Kani unit U-DET / U-CAP own these)
 pub uninterp spec fn det_result<'i>(h: input::Handle<'i>) -> std::io::Result<Option<Format>>;
 pub uninterp spec fn det_handle<'i>(h: input::Handle<'i>) -> input::Handle<'i>;
@@ -132,13 +137,22 @@ DISP_VIEW = r'''
 DNEW_SPEC = 'ensures d.variant() == fcode(to), d.log().len() == 0,'
 FWD = lambda code: 'ensures (**final(self)).variant() == (**old(self)).variant(), (**final(self)).log() == (**old(self)).log().push(%d),' % code
 
-TR_SPEC = '''ensures
-        from matches Some(f) ==> r == tr_outcome(fcode(f), input),
-        from is None ==> (match det_result(input) {
-            Ok(Some(f)) => r == tr_outcome(fcode(f), det_handle(input)),
+TR_SPEC = '''ensures tr_spec(from, input, old(self).variant(), r),'''
+# what translating one input means (C09: naming the format == what detection selects; detection is consulted only when no format was named)
+TR_SPEC_FN = r'''
+#[verifier::external_body]
+broadcast proof fn axiom_out_kind_dispatcher<W: Write>(m: &&mut Dispatcher<W>)
+    ensures #[trigger] out_kind::<&mut Dispatcher<W>>(m) == (*old(*m)).variant(),
+{ }
+pub open spec fn tr_spec<'i>(from: Option<Format>, input: input::Handle<'i>, target: int, r: Result<()>) -> bool {
+    &&& (from matches Some(f) ==> r == tr_outcome(fcode(f), input, target))
+    &&& (from is None ==> (match det_result(input) {
+            Ok(Some(f)) => r == tr_outcome(fcode(f), det_handle(input), target),
             Ok(None) => r == Err::<(), Error>(err_of_text("unable to detect input format")),
             Err(e) => r is Err,
-        }),'''
+        }))
+}
+'''
 
 SRC = 'repo:src/lib.rs'
 TI = r'\bimpl\s*<W>\s+Translator\s*<W>'
@@ -149,6 +163,7 @@ ITEMS = [
     dict(src=SRC, kind='enum', name='Format', keep_attrs=False, wrap=('#[derive(Copy, Clone)]', '')),
     dict(src=SRC, kind='trait', name='Output'),
     dict(raw=FORMAT_MODS + ''.join(FORMAT_MOD_TEMPLATE.replace('@M@', m).replace('@CODE@', '%dint' % c) for m, c in [('json', 1), ('msgpack', 2), ('toml', 3), ('yaml', 4)])),
+    dict(raw=TR_SPEC_FN),
     dict(src=SRC, kind='enum', name='Dispatcher'),
     dict(src=SRC, kind='struct', name='Translator'),
     dict(raw='impl<W> Dispatcher<W>\nwhere\n\tW: Write,\n{' + DISP_VIEW),
@@ -159,12 +174,15 @@ ITEMS = [
     dict(src=SRC, kind='fn', name='flush', within_impl=OI, contract=dict(ret='r', spec=FWD(3))),
     dict(raw='}\nimpl<W> Translator<W>\nwhere\n\tW: Write,\n{\n    pub closed spec fn variant(&self) -> int { self.0.variant() }\n    pub closed spec fn log(&self) -> Seq<int> { self.0.log() }'),
     dict(src=SRC, kind='fn', name='new', within_impl=TI, contract=dict(ret='t', spec='ensures t.variant() == fcode(to), t.log().len() == 0,')),
-    dict(src=SRC, kind='fn', name='translate_slice', within_impl=TI, contract=dict(ret='r', spec='ensures true,')),
-    dict(src=SRC, kind='fn', name='translate_reader', within_impl=TI, contract=dict(ret='r', spec='ensures true,')),
-    dict(src=SRC, kind='fn', name='translate', within_impl=TI, contract=dict(ret='r', spec=TR_SPEC)),
+    dict(src=SRC, kind='fn', name='translate_slice', within_impl=TI, contract=dict(ret='r', spec='ensures tr_spec(from, input::slice_handle(input), old(self).variant(), r),')),
+    dict(src=SRC, kind='fn', name='translate_reader', within_impl=TI, contract=dict(ret='r', spec='ensures tr_spec(from, input::reader_handle::<R>(input), old(self).variant(), r),')),
+    dict(src=SRC, kind='fn', name='translate', within_impl=TI, contract=dict(ret='r', spec=TR_SPEC, prologue='broadcast use axiom_out_kind_dispatcher;')),
     # (Translator::flush calls the forwarding impl through a temporary `&mut &mut Dispatcher`; Verus does not connect the
     # nested reference's final value back to `self.0`, so it stays with the Kani harness translator_flush_forwards_to_writer)
     dict(raw='}'),
+    # the two public one-shot entry points: the same meaning as the Translator methods, on a translator made for `to`
+    dict(src=SRC, kind='fn', name='translate_slice', before=r'\bpub\s+struct\s+Translator\b', contract=dict(ret='r', spec='ensures tr_spec(from, input::slice_handle(input), fcode(to), r),')),
+    dict(src=SRC, kind='fn', name='translate_reader', before=r'\bpub\s+struct\s+Translator\b', contract=dict(ret='r', spec='ensures tr_spec(from, input::reader_handle::<R>(input), fcode(to), r),')),
 ]
 
 CONSTS = []
